@@ -29,7 +29,7 @@ ASSUMPTIONS = [
 THIN = {"thin": True, "names": ["sig"], "nsecs": 1, "narr": 1, "nsrc": 1}
 THIN_NODEL = dict(THIN)
 CHUNK = 8
-WALL_CAP = {"quick": 900, "thorough": 10800}
+WALL_CAP = {"quick": 1500, "thorough": 10800}
 
 
 def BOUNDS(tier):
